@@ -25,7 +25,9 @@ import (
 	"math/big"
 	"math/rand"
 	"os"
+	"runtime"
 	"sort"
+	"strconv"
 	"strings"
 	"sync"
 	"sync/atomic"
@@ -88,8 +90,11 @@ type Scenario struct {
 	Perturb    float64   `json:"perturb"`
 	Storm      bool      `json:"storm"`
 	OwnHandles bool      `json:"ownHandles"`
-	CbErrPct   int       `json:"cbErrPct"` // the observable callback returns an error in this share of its calls
-	CbErrAt    []int     `json:"cbErrAt"`  // ... and at these invocations (1-based count per scenario), for directed schedules
+	CbErrPct   int       `json:"cbErrPct"`        // the observable callback returns an error in this share of its calls
+	CbErrAt    []int     `json:"cbErrAt"`         // ... and at these invocations (1-based count per scenario), for directed schedules
+	Hammer     int       `json:"hammer"`          // goroutines hammering the hot attribute sets with Add(0): keeps the stream mutexes contended
+	Cold       int       `json:"cold"`            // extra attribute sets per instrument, kept alive with Add(0): makes the snapshot copy long
+	Steps      []string  `json:"steps,omitempty"` // choreography: start:K sleep:MS awaitpark:K awaitq:N release:K
 	Seed       int64     `json:"seed"`
 }
 
@@ -199,6 +204,13 @@ func (p *projector) project(rm *metricdata.ResourceMetrics) (pts []pt, ivs []ivT
 			}
 			seen := map[[2]int64]bool{}
 			one := func(set attribute.Set, st, t time.Time, v *big.Int, okv bool) {
+				if _, cold := set.Value("cold"); cold {
+					// filler attribute set (only ever Add(0)): carries no measurement, must report zero
+					if !okv || v.Sign() != 0 {
+						bad = true
+					}
+					return
+				}
 				av, has := set.Value("a")
 				si := byAttr[int(av.AsInt64())]
 				if !has || si == nil || set.Len() != 1 {
@@ -385,11 +397,14 @@ func runScenario(scn int, sc Scenario, tw *vh.TraceWriter, res *vh.Result) {
 		readers[rc.Name] = lr
 		order = append(order, lr)
 	}
+	ch := newChoreo(sc.Steps)
 	if sc.Filter {
 		opts = append(opts, sdkmetric.WithExemplarFilter(func(ctx context.Context) bool {
 			if ai, ok := ctx.Value(addKey{}).(addInfo); ok && ai.sc == scn {
 				p := atomic.AddInt32(ai.n, 1)
-				sched.Arrive(fmt.Sprintf("%s@f%d", ai.gate, p))
+				key := fmt.Sprintf("%s@f%d", ai.gate, p)
+				sched.Arrive(key)
+				ch.park(key)
 			}
 			return false
 		}))
@@ -492,7 +507,57 @@ func runScenario(scn int, sc Scenario, tw *vh.TraceWriter, res *vh.Result) {
 			}
 		}
 	}
-	var addsStarted, addsDone int64
+	var addsStarted, addsDone, collectsStarted int64
+	hotOpt := map[string]metric.MeasurementOption{}
+	for _, st := range sc.Streams {
+		hotOpt[st.Key] = metric.WithAttributeSet(attribute.NewSet(attribute.Int("a", st.Attr)))
+	}
+	// ---- background load (storms): Add(0) carries no measurement, so it needs no id and no log line, but it
+	// queues on the stream mutexes like any other Add (sync.Mutex goes into starvation mode = FIFO hand-off,
+	// which is what exposes a collection that needs the mutex twice) and keeps a large map of cold sets alive
+	var stopBg int32
+	var bg sync.WaitGroup
+	addZero := func(i int, opt metric.MeasurementOption) {
+		h := insts[i]
+		h.once.Do(func() { mk(i, h) })
+		switch {
+		case h.i64 != nil:
+			h.i64.Add(context.Background(), 0, opt)
+		case h.f64 != nil:
+			h.f64.Add(context.Background(), 0, opt)
+		case h.u64 != nil:
+			h.u64.Add(context.Background(), 0, opt)
+		default:
+			h.uf64.Add(context.Background(), 0, opt)
+		}
+	}
+	for hmr := 0; hmr < sc.Hammer; hmr++ {
+		hmr := hmr
+		bg.Add(1)
+		go func() {
+			defer bg.Done()
+			for n := hmr; atomic.LoadInt32(&stopBg) == 0; n++ {
+				st := sc.Streams[n%len(sc.Streams)]
+				addZero(st.Inst, hotOpt[st.Key])
+			}
+		}()
+	}
+	if sc.Cold > 0 {
+		coldOpt := make([]metric.MeasurementOption, sc.Cold)
+		for j := range coldOpt {
+			coldOpt[j] = metric.WithAttributeSet(attribute.NewSet(attribute.Int("cold", j)))
+		}
+		for i := range sc.Insts {
+			i := i
+			bg.Add(1)
+			go func() {
+				defer bg.Done()
+				for n := 0; atomic.LoadInt32(&stopBg) == 0; n++ {
+					addZero(i, coldOpt[n%len(coldOpt)])
+				}
+			}()
+		}
+	}
 
 	// ---- recorders
 	for g, adds := range sc.Recs {
@@ -511,16 +576,29 @@ func runScenario(scn int, sc Scenario, tw *vh.TraceWriter, res *vh.Result) {
 					h = own[s.Inst]
 				}
 				h.once.Do(func() { mk(s.Inst, h) })
-				gate := fmt.Sprintf("%s:%d", name, k+1)
-				var cnt int32
-				ctx := context.WithValue(context.Background(), addKey{}, addInfo{gate: gate, n: &cnt, sc: scn})
-				opt := metric.WithAttributeSet(attribute.NewSet(attribute.Int("a", s.Attr)))
+				ctx := context.Background()
+				gate := ""
+				if !sc.Storm {
+					gate = fmt.Sprintf("%s:%d", name, k+1)
+					var cnt int32
+					ctx = context.WithValue(ctx, addKey{}, addInfo{gate: gate, n: &cnt, sc: scn})
+				}
+				opt := hotOpt[a.Key]
 				v := pow4(a.I)
 				if infos[a.Key].neg[a.I] {
 					v = -v
 				}
 				jitter(r, 120)
-				sched.Arrive(gate + "@call")
+				if !sc.Storm {
+					sched.Arrive(gate + "@call")
+					ch.waitStart(gate)
+				} else if sc.Hammer > 0 && k > 0 {
+					// spread the measurements over the collections: wait (briefly) for the next collection to begin
+					seen := atomic.LoadInt64(&collectsStarted)
+					for spin := 0; atomic.LoadInt64(&collectsStarted) == seen && spin < 400; spin++ {
+						runtime.Gosched()
+					}
+				}
 				atomic.AddInt64(&addsStarted, 1)
 				log.put(event{ev: "Call", op: "Add", key: a.Key, i: a.I})
 				switch {
@@ -544,6 +622,8 @@ func runScenario(scn int, sc Scenario, tw *vh.TraceWriter, res *vh.Result) {
 	doCollect := func(proc, gate string, lr *liveReader, rm *metricdata.ResourceMetrics) {
 		ctx := context.WithValue(context.Background(), procKey{}, procInfo{gate: gate, proc: proc, sc: scn})
 		sched.Arrive(gate + "@call")
+		ch.waitStart(gate)
+		atomic.AddInt64(&collectsStarted, 1)
 		log.put(event{ev: "Call", op: "Collect", proc: proc, rd: lr.c.Name})
 		err := lr.collect(ctx, rm)
 		var pts []pt
@@ -651,6 +731,7 @@ func runScenario(scn int, sc Scenario, tw *vh.TraceWriter, res *vh.Result) {
 		})
 	}
 
+	go ch.run()
 	done := make(chan struct{})
 	go func() { wg.Wait(); close(done) }()
 	grace := 20 * time.Second // generous: a stuck goroutine only makes the scenario non-quiescent, never a verdict
@@ -661,6 +742,11 @@ func runScenario(scn int, sc Scenario, tw *vh.TraceWriter, res *vh.Result) {
 		live.Range(func(k, _ any) bool { blocked = append(blocked, k.(string)); return true })
 	}
 	quiescent := len(blocked) == 0
+	ch.releaseAll()
+	atomic.StoreInt32(&stopBg, 1)
+	bg.Wait()
+	res.Count("choreography_steps_timed_out", int64(atomic.LoadInt32(&ch.timedOut)))
+	res.Count("choreography_steps", int64(len(sc.Steps)))
 	if quiescent {
 		// final phase: every reader collects once more after all Adds have returned (EveryReaderSeesAll);
 		// periodic readers are flushed and shut down (final collection of Shutdown)
@@ -814,6 +900,128 @@ func suffix(provider bool, rd string) string {
 	return ""
 }
 
+// ------------------------------------------------------------------ choreography (forced schedules beyond gate order)
+
+// choreo drives a scenario through steps that a gate script cannot express: "let this call start", "wait until
+// N goroutines are queued on a sync.Mutex" (read off the runtime's goroutine dump), "hold this Add inside the
+// stream mutex (exemplar filter) until released".  Every wait has a generous timeout; a step that times out only
+// makes the forced schedule miss (counted), never a verdict.
+type choreo struct {
+	steps    []string
+	mu       sync.Mutex
+	starts   map[string]chan struct{}
+	entered  map[string]chan struct{}
+	release  map[string]chan struct{}
+	timedOut int32
+}
+
+func newChoreo(steps []string) *choreo {
+	c := &choreo{steps: steps, starts: map[string]chan struct{}{}, entered: map[string]chan struct{}{}, release: map[string]chan struct{}{}}
+	for _, st := range steps {
+		if k, ok := strings.CutPrefix(st, "start:"); ok {
+			c.starts[k] = make(chan struct{})
+		}
+		if k, ok := strings.CutPrefix(st, "release:"); ok {
+			c.entered[k] = make(chan struct{})
+			c.release[k] = make(chan struct{})
+		}
+	}
+	return c
+}
+
+func closeOnce(ch chan struct{}) {
+	select {
+	case <-ch:
+	default:
+		close(ch)
+	}
+}
+
+// waitStart blocks a call whose gate has a start: step until the choreographer allows it.
+func (c *choreo) waitStart(gate string) {
+	if c == nil || len(c.steps) == 0 {
+		return
+	}
+	if ch, ok := c.starts[gate]; ok {
+		select {
+		case <-ch:
+		case <-time.After(15 * time.Second):
+			atomic.AddInt32(&c.timedOut, 1)
+		}
+	}
+}
+
+// park holds the caller (inside the stream mutex) if key has a release: step.
+func (c *choreo) park(key string) {
+	if c == nil || len(c.steps) == 0 {
+		return
+	}
+	if rel, ok := c.release[key]; ok {
+		c.mu.Lock()
+		closeOnce(c.entered[key])
+		c.mu.Unlock()
+		select {
+		case <-rel:
+		case <-time.After(15 * time.Second):
+			atomic.AddInt32(&c.timedOut, 1)
+		}
+	}
+}
+
+func mutexWaiters() int {
+	buf := make([]byte, 1<<20)
+	n := runtime.Stack(buf, true)
+	return strings.Count(string(buf[:n]), " [sync.Mutex.Lock")
+}
+
+func (c *choreo) run() {
+	for _, st := range c.steps {
+		kind, arg, _ := strings.Cut(st, ":")
+		switch kind {
+		case "start":
+			c.mu.Lock()
+			closeOnce(c.starts[arg])
+			c.mu.Unlock()
+		case "release":
+			c.mu.Lock()
+			closeOnce(c.release[arg])
+			c.mu.Unlock()
+		case "sleep":
+			ms, _ := strconv.Atoi(arg)
+			time.Sleep(time.Duration(ms) * time.Millisecond)
+		case "awaitpark":
+			if ch, ok := c.entered[arg]; ok {
+				select {
+				case <-ch:
+				case <-time.After(5 * time.Second):
+					atomic.AddInt32(&c.timedOut, 1)
+				}
+			}
+		case "awaitq":
+			want, _ := strconv.Atoi(arg)
+			deadline := time.Now().Add(3 * time.Second)
+			for mutexWaiters() < want {
+				if time.Now().After(deadline) {
+					atomic.AddInt32(&c.timedOut, 1)
+					break
+				}
+				time.Sleep(200 * time.Microsecond)
+			}
+		}
+	}
+}
+
+func (c *choreo) releaseAll() {
+	c.mu.Lock()
+	defer c.mu.Unlock()
+	for _, ch := range c.starts {
+		closeOnce(ch)
+	}
+	for _, ch := range c.release {
+		closeOnce(ch)
+	}
+}
+
 // ------------------------------------------------------------------ random scenarios
 
 func randomScenario(r *rand.Rand, storm bool) Scenario {
@@ -845,6 +1053,12 @@ func randomScenario(r *rand.Rand, storm bool) Scenario {
 		ng = 3 + r.Intn(6)
 		sc.Perturb = 0
 		sc.Callback = false
+		sc.CbErrPct = 0
+		sc.OwnHandles = false
+		if r.Intn(4) > 0 { // hot-lock storm: contended stream mutexes, sometimes a big map under them
+			sc.Hammer = runtime.GOMAXPROCS(0) * (1 + r.Intn(2))
+			sc.Cold = []int{0, 0, 300, 3000}[r.Intn(4)]
+		}
 	}
 	sc.Recs = make([][]AddC, ng)
 	nk := 0
